@@ -144,7 +144,9 @@ def gen_program(rng, role, nobj, nops, blobs=()):
                 g2 = sorted(rng.sample(range(nobj), min(nobj, rng.choice([1, 2, 3]))))
                 ops += [['w', grp], ['sp'], ['w', g2], ['sp']] + \
                        ([['w', [rng.randrange(nobj)]]] if rng.random() < 0.4 else []) + \
-                       [['rb', rng.choice([0, 0, 1])], ['r', sorted(set(grp + g2))], [rng.choice(['c', 'c', 'a', 'b'])]]
+                       ([['rb', rng.choice([0, 0, 1])]] if rng.random() < 0.7 else []) + \
+                       [['r', sorted(set(grp + g2))], [rng.choice(['c', 'c', 'a', 'b', 'cv', 'cv', 'cc'])],
+                        ['r', sorted(set(grp + g2))]]
                 i += 4
             elif r < 0.82:
                 ops.append([rng.choice(['sp', 'sp', 'rb']), 0] if rng.random() < 0.5 else ['sp'])
@@ -501,6 +503,7 @@ def worker(run, db, name, ops, nobj, explicit, stamps, nobj2=0):
         """an external garbage collector deletes an unreachable object at the storage level
         (IExternalGC.deleteObject in a transaction of its own, no invalidations)"""
         from ZODB.Connection import TransactionMetaData
+        from ZODB.POSException import POSKeyError
         from ZODB.utils import p64
         g = run.garbage.pop() if run.garbage else None
         if g is None:
@@ -513,6 +516,9 @@ def worker(run, db, name, ops, nobj, explicit, stamps, nobj2=0):
             db.storage.tpc_vote(t)
             db.storage.tpc_finish(t)
             run.errors.append((name, 'deleteObject', 'ok'))
+        except POSKeyError:             # a concurrent pack has collected the garbage already
+            db.storage.tpc_abort(t)
+            run.errors.append((name, 'deleteObject', 'already-packed'))
         except Exception:
             db.storage.tpc_abort(t)
             raise
@@ -723,9 +729,16 @@ def worker(run, db, name, ops, nobj, explicit, stamps, nobj2=0):
                         if tr:
                             tr.write(name, st['conn'], u64(obj._p_oid), stamp)
                 elif k == 'rn':
+                    from ZODB.POSException import POSKeyError
                     for o in st['newobjs'] + st['newpend']:
                         if o._p_jar is st['conn'] and o._p_oid is not None:
-                            read(0, o)
+                            try:
+                                read(0, o)
+                            except POSKeyError:
+                                # fine only if an undo may have un-created the object
+                                if not any(c.get('undo') for c in run.commits):
+                                    raise
+                                st['newobjs'] = [x for x in st['newobjs'] if x is not o]
                 elif k == 'do':
                     do_delete_object()
                 elif k == 'a':
@@ -1059,12 +1072,12 @@ def run_case(case, tmp, with_trace=False, schedule=None):
     return obs
 
 
-# Candidate findings of the UNCHANGED tree (reported to the coordinator with a reproducer): they are
-# counted in the evidence histogram and become KNOWN-FINDING lines once listed in known_findings.json.
-#   bw-committed-blob-removed-by-concurrent-abort: ZODB.blob.BlobStorage.tpc_finish clears its list of
-#   dirty blob files after the wrapped storage released the commit lock; a transaction that begins and
-#   aborts in that window deletes the blob file just committed (corpus/C02/repro_blobstorage_…py).
-CANDIDATES = ('C02:bw-committed-blob-removed-by-concurrent-abort',)
+# Signature of a defect this check found in the unchanged tree and that was repaired in /repo
+# (known_findings.json: fixed; corpus/C02/repro_blobstorage_finish_abort_race.py): BlobStorage.tpc_finish
+# cleared its list of dirty blob files after the commit lock was released, so a transaction that began
+# and aborted in that window deleted the blob file just committed.  A regression is a violation.
+BW_RACE = 'C02:bw-committed-blob-removed-by-concurrent-abort'
+CANDIDATES = ()         # signatures only counted until the coordinator has decided (none at present)
 
 
 # ---------------------------------------------------------------- direct oracle (model-free)
@@ -1075,7 +1088,7 @@ def oracle(obs):
         return [('C02:deadlock', 'no runnable thread (schedule deadlocked)')]
     for t, e in sorted(obs['thread_errors'].items()):
         if obs.get('kind') in ('bwfile', 'bwmap') and 'No blob file' in e:
-            return [(CANDIDATES[0], 'BlobStorage wrapper: thread %s: %s' % (t, e))]
+            return [(BW_RACE, 'BlobStorage wrapper: thread %s: %s' % (t, e))]
         out.append(('C02:thread-error', 'thread %s died: %s' % (t, e)))
     if obs.get('pool_bad'):
         out.append(('C02:pool-mutex', 'FilePool handed a reader file out while a finisher was writing (%s)'
@@ -1198,7 +1211,7 @@ def run_batch(args):
                 ep = max(obs['epochs'], key=lambda e: len(e['reads']))
                 out['samples'].append(dict(kind=case['kind'], progs=case['progs'], seed=case['seed'],
                                            epoch=dict(thread=ep['thread'], start='%x' % (ep['start'] or 0),
-                                                      reads=[(r[0], '%x' % r[1], r[2]) for r in ep['reads']])))
+                                                      reads=[(r[0], '%x' % (r[1] or 0), r[2]) for r in ep['reads']])))
         if verdict and verdict[0][0] in CANDIDATES:
             count('candidate:' + verdict[0][0].split(':', 1)[1])
             out['candidates'].append((verdict[0][0], verdict[0][1], case))
